@@ -65,6 +65,14 @@ func newSubProcess(eventBuilder event.IDefinitionInstanceBuilder, idGenerator id
 
 		ctx, cancel := context.WithCancel(context.Background())
 		subTracer := tracing.NewTracer(ctx)
+		// a sub-process the token never enters has no run loop to cancel its tracer: tie it to the parent's
+		go func() {
+			select {
+			case <-parentWiring.tracer.Done():
+				cancel()
+			case <-ctx.Done():
+			}
+		}()
 		process := &subProcess{
 			wr:                     parentWiring,
 			ctx:                    ctx,
